@@ -23,6 +23,7 @@ RULE = ('random core and IOAPI files (float and small-integer payloads, '
 RULE += (" Every tenth receiver is the object one of the library's READERS returns for a valid image written by the independent codecs (CAMx memory-mapped and record readers, bpch1, bpch2, arlpackedbit, ffi1001); the call is drawn from the dimensions of the open file and judged by the same oracle on a snapshot of that file.")
 RULE += (' IOAPI files may carry a variable without dimensions.')
 RULE += (' One receiver from disk in three (plain files) is written with netCDF4 directly, as other tools write archive files: float data variables packed (int16 with scale_factor/add_offset), masks as _FillValue; the oracle snapshots what the opened file delivers.')
+RULE += (' One plain case in twelve holds a variable that uses one dimension on two axes (cov(y, y)); the function is applied along each of them (either order accepted for non-commuting reducers).')
 ASSUMPTIONS = [
     'reference = explicit masked reductions with np.where/count on float64 '
     '(exact ints) copies; callables via numpy.ma.apply_along_axis',
@@ -71,6 +72,21 @@ def gen(rng, idx, tier, seed):
         dims = [[d[0], d[1]] for d in core['dims']]
     spec = gen_apply(rng, dims, idx, ioapi)
     spec['file'] = fs
+    big = [d for d in dims if d[1] >= 3]
+    if idx % 12 == 6 and not ioapi and big and not spec.get('form'):
+        # a variable that uses one dimension on two axes (a covariance
+        # matrix per step): the function goes along each of them
+        y = big[0][0]
+        other = [d[0] for d in dims if d[0] != y]
+        core['vars'].append({
+            'name': 'cov', 'dims': ([other[0]] if other and rng.random() < .5
+                                    else []) + [y, y],
+            'dtype': str(rng.choice(['f8', 'f4'])), 'kind': 'data',
+            'mask': str(rng.choice(['none', 'random'])), 'fill': -999.0,
+            'seed': int(rng.integers(1 << 30)), 'attrs': []})
+        spec['apply'] = [[y, str(rng.choice(['sum', 'max', 'min', 'mean',
+                                             'rev', 'cumsum',
+                                             'conv_same']))]]
     return spec
 
 
@@ -295,7 +311,7 @@ def run_file(spec, res, d, h, f, ioapi):
     for name, vs in before.vars.items():
         if ioapi and name in ('TFLAG', 'ETFLAG'):
             continue   # rebuilt from metadata by the IOAPI override (C10/C12)
-        mine = [(vs.dims.index(d), d) for d in vs.dims if d in fnmap]
+        mine = [(ax_, d) for ax_, d in enumerate(vs.dims) if d in fnmap]
         if name not in out.variables:
             problems.append('variable %s missing' % name)
             continue
